@@ -287,7 +287,11 @@ func handleRejected(r *core.Run, o sessionOpts, s *session, v *verdict, st *stat
 		report(s, v2, "")
 		return
 	}
-	// timing-dependent
+	// The rejection depends on the scheduling assumption.  Repeat the session
+	// (same seed) with 4x and 16x the hold time: a goroutine that had not run
+	// within the hold time is practically excluded there, so a repetition that
+	// is rejected as well is reported; if both are accepted the first
+	// rejection is put down to scheduling (counted, logged, not a verdict).
 	oo := o
 	for try := 0; try < 2; try++ {
 		oo.hold *= 4
@@ -300,14 +304,13 @@ func handleRejected(r *core.Run, o sessionOpts, s *session, v *verdict, st *stat
 			r.Infra("service trace validation failed to run: %v", err)
 			return
 		}
-		if v3.ok {
-			st.heldMiss++
-			r.Logf("session %d: rejected only under the scheduling assumption of held answers (hold %v), accepted when repeated with hold %v: not reported", s.ID, o.hold, oo.hold)
+		if !v3.ok {
+			report(s2, v3, fmt.Sprintf(" (first seen with the on-start answer held for %v, again when the session was repeated with %v)", o.hold, oo.hold))
 			return
 		}
-		s, v = s2, v3
 	}
-	report(s, v, fmt.Sprintf(" (reproduced with the on-start answer held for %v)", oo.hold))
+	st.heldMiss++
+	r.Logf("session %d (seed %d): rejected only under the scheduling assumption of held answers (hold %v) and accepted twice when repeated with longer holds: not reported", s.ID, s.Seed, o.hold)
 }
 
 func buildBinary(r *core.Run, out string, race bool) error {
@@ -364,7 +367,7 @@ func Run(r *core.Run) {
 	designDone := make(chan struct{})
 	go func() {
 		defer close(designDone)
-		core.Parallel(len(cfgs), 2, func(i int) {
+		core.Parallel(len(cfgs), 3, func(i int) {
 			c := cfgs[i]
 			res := tlcrun.MustHold(r, tlcrun.Options{Module: "ServiceMC", Config: c, Workers: 2, TimeoutSec: 1500})
 			if res != nil {
